@@ -175,7 +175,7 @@ struct SessionsModel : Monitor {
 				int uid = pl[8];
 				SlotModel &sm = slot[uid];
 				// C04 (3): never hand out a slot whose session was clearly active during the last 60 s
-				if (sm.issued && w->S.now - sm.t_lo < 59ull * 1000000 && sm.t_lo > 0) {
+				if (sm.issued && w->S.now - sm.t_lo < 60ull * 1000000 && sm.t_lo > 0) {
 					char b[200]; snprintf(b, sizeof b, "slot %d handed to %s although its session was active %.1f s ago", uid, d.dst.str().c_str(), (w->S.now - sm.t_lo) / 1e6);
 					w->S.violate("C04", "slot.takeover", b);
 				}
